@@ -462,7 +462,7 @@ def run_chunk(spec):
     observe.install_task_wrappers()
     res = Result()
     tier, ci = spec["tier"], spec["chunk"]
-    wd = Watchdog(res, 120.0)
+    wd = Watchdog(res, 400.0)
     rng = rng_for(spec["seed"], ID, ci, "scripts")
     variants = []
     for delays in ([10], [10, 17], [7, 7]):
